@@ -17,7 +17,11 @@ PUBLIC = 'pubv'
 HERE = os.path.abspath(__file__)
 
 KINDS = ('pub', 'den', 'prv')
-FAMS = ('s', 'n', 'r', 'm', 'k', 'l', 'z', 'b')
+# 'alt': one attribute name whose guard decision alternates per OBJECT (two objects of one class,
+# different decisions within one render) and flips between two renders of the same template
+ALLKINDS = KINDS + ('alt',)
+FAMS = ('cm', 's', 'n', 'r', 'm', 'k', 'l', 'z', 'b')
+PATTERNS = ('single', 'first', 'last', 'adjacent', 'all', 'alternating')
 
 
 def aname(fam, kind):
@@ -25,6 +29,26 @@ def aname(fam, kind):
     if kind == 'prv':
         return '_%s_prv' % fam
     return '%s_%s' % (fam, kind)
+
+
+CM_NAMES = frozenset(aname('cm', k) for k in ALLKINDS)
+
+
+def deny_indices(pat, n, p):
+    """Indices of the refused elements among n siblings for a position pattern (p: seeded index)."""
+    p = p % n
+    if pat == 'first':
+        return [0]
+    if pat == 'last':
+        return [n - 1]
+    if pat == 'adjacent':
+        a = p if p + 1 < n else n - 2
+        return [max(a, 0), max(a, 0) + 1] if n > 1 else [0]
+    if pat == 'all':
+        return list(range(n))
+    if pat == 'alternating':
+        return list(range(p % 2, n, 2))
+    return [p]
 
 
 def name_kind(name):
@@ -108,7 +132,24 @@ class PObj:
             if w is not None:
                 w.raw_log.append((id(self), d.get('tag'), name, _chain()))
             return d[name]
+        if name in CM_NAMES:
+            w = CURRENT[0]
+            if w is not None:
+                w.raw_log.append((id(self), d.get('tag'), name, _chain()))
         return object.__getattribute__(self, name)
+
+    # methods DEFINED BY THE CLASS (a per-class cache keyed by (class, name) would confuse objects)
+    def cm_pub(self):
+        return object.__getattribute__(self, '__dict__')['=cm_pub']
+
+    def cm_den(self):
+        return object.__getattribute__(self, '__dict__')['=cm_den']
+
+    def _cm_prv(self):
+        return object.__getattribute__(self, '__dict__')['=_cm_prv']
+
+    def cm_alt(self):
+        return object.__getattribute__(self, '__dict__')['=cm_alt']
 
     def __str__(self):
         return 'obj(%s)' % object.__getattribute__(self, '__dict__').get('tag')
@@ -290,19 +331,23 @@ RUN_P = 'cabbacab'
 
 
 class Graph:
-    """All client data of one render, built for (cfg, assignment, parameters)."""
+    """All client data of one render, built for (cfg, assignment, flip, parameters)."""
 
-    def __init__(self, cfg, assign, params, w, need=None):
+    def __init__(self, cfg, assign, params, w, need=None, flip=0):
         self.need = need              # names the template can reach (None: everything)
         self.cfg = cfg
         self.assign = assign          # 'a' | 'b' | 'c' (c = falsy secrets)
+        self.flip = flip              # which half of the objects refuses the *_alt names
         self.p = params
         self.w = w
         self.n = params['n']
+        self.deny = deny_indices(params.get('pat', 'single'), self.n, params['p'])
         self.build()
 
     # -- values
-    def secret_kind(self, kind):
+    def secret_kind(self, kind, refuse_alt=False):
+        if kind == 'alt':
+            return refuse_alt
         return kind == 'prv' or (kind == 'den' and self.cfg != 'none')
 
     def sval(self, tag, name, secret):
@@ -337,13 +382,15 @@ class Graph:
             return SECRET + RUN_B[j % len(RUN_B)]
         return ''
 
-    def mkobj(self, tag, j=0, tainted=False, depth=0, extra=None):
-        """A probe object with every attribute family in the three kinds."""
+    def mkobj(self, tag, j=0, tainted=False, depth=0, extra=None, ordinal=None):
+        """A probe object with every attribute family in the four kinds."""
         attrs = {}
-        denied = []
+        if ordinal is None:
+            ordinal = j
+        refuse_alt = self.cfg != 'none' and (ordinal + self.flip) % 2 == 1
         stag = tag if not tainted else self.sval(tag, 'tag', True)
-        for kind in KINDS:
-            sec = tainted or self.secret_kind(kind)
+        for kind in ALLKINDS:
+            sec = tainted or self.secret_kind(kind, refuse_alt)
             for fam in ('s', 'z'):
                 nm = aname(fam, kind)
                 attrs[nm] = self.sval(tag, nm, sec)
@@ -351,23 +398,30 @@ class Graph:
             attrs[aname('r', kind)] = self.rval(j, sec, tainted and kind == 'pub')
             nm = aname('m', kind)
             attrs[nm] = (lambda v=self.sval(tag, nm + '()', sec): v)
+            nm = aname('cm', kind)
+            attrs['=' + nm] = self.sval(tag, nm + '()', sec)
             if depth == 0:
                 knm = aname('k', kind)
-                attrs[knm] = self.mkobj('%s.%s' % (tag, knm), j, tainted=sec, depth=1)
+                attrs[knm] = self.mkobj('%s.%s' % (tag, knm), j, tainted=sec, depth=1, ordinal=ordinal)
                 lnm = aname('l', kind)
                 attrs[lnm] = [self.mkobj('%s.%s%d' % (tag, lnm, i), i, tainted=sec, depth=1)
                               for i in range(2)]
+        denied = []
         if self.cfg != 'none':
-            denied = [n_ for n_ in attrs if n_.endswith('_den')]
+            denied = [n_ for n_ in attrs if n_.endswith('_den')] + ['cm_den']
+            if refuse_alt:
+                denied += [n_ for n_ in attrs if n_.endswith('_alt')] + ['cm_alt']
         attrs['zero'] = 0
         attrs['tpId'] = 'id-' + stag
         attrs['tpURL'] = 'url-' + stag
         if extra:
             attrs.update(extra)
         o = PObj(stag, attrs)
-        for nm in set(denied):
+        for nm in denied:
             self.w.denied_attrs.add((id(o), nm))
         self.w.keep.append(o)
+        o_d = pdict(o)
+        o_d['=refuse_alt'] = refuse_alt
         return o
 
     def container(self, items):
@@ -382,29 +436,35 @@ class Graph:
         """Builds only what the template source can name (`need`), the rest stays absent."""
         w = self.w
         n = self.n
-        p = self.p['p']
+        deny = set(self.deny)
         need = self.need
         ns = {}
         self.c = self.c0 = None
         if need is None or 'client' in need:
             self.c = self.mkobj('c')
             d = pdict(self.c)
-            for kind in KINDS:       # only c0 carries the z family
+            for kind in ALLKINDS:       # only c0 carries the z family
                 d.pop(aname('z', kind))
-            self.c0 = self.mkobj('c0')
+            self.c0 = self.mkobj('c0', ordinal=1)
 
         def want(name):
             return need is None or name in need
         if want('o'):
             ns['o'] = self.mkobj('o')
+            d = pdict(ns['o'])
+            for kind in ALLKINDS:       # only oz carries the z family
+                d.pop(aname('z', kind))
+        if want('oz'):
+            ns['oz'] = self.mkobj('oz', ordinal=1)
         if want('seq') or want('pseq') or want('tseq'):
             self.items = [self.mkobj('i%d' % j, j, depth=1) for j in range(n)]
             ns['seq'] = self.container(self.items)
             ns['pseq'] = PSeq(self.items)
             ns['tseq'] = [('key%d' % j, it) for j, it in enumerate(self.items)]
         if want('dseq') or want('dpseq'):
-            self.ditems = [self.mkobj('d%d' % j, j, tainted=(j == p), depth=1) for j in range(n)]
-            w.denied_items.add(id(self.ditems[p]))
+            self.ditems = [self.mkobj('d%d' % j, j, tainted=(j in deny), depth=1) for j in range(n)]
+            for j in deny:
+                w.denied_items.add(id(self.ditems[j]))
             ns['dseq'] = self.container(self.ditems)
             ns['dpseq'] = PSeq(self.ditems)
         # mapping-mode sequences
@@ -413,7 +473,7 @@ class Graph:
                 continue
             ms = []
             for j in range(n):
-                tainted = flavour == 'dm' and j == p
+                tainted = flavour == 'dm' and j in deny
                 data = {}
                 tag = '%s%d' % (flavour, j)
                 for kind in KINDS:
@@ -457,29 +517,32 @@ class Graph:
         self.ns = ns
 
     def mktree(self):
-        """root -> t0..t2 -> t00,t01 -> (); b_pub/b_den/_b_prv give disjoint child sets, b_mix
-        contains one refused child."""
+        """root -> t0.. -> t00.. -> (); b_pub/b_den/_b_prv/b_alt give disjoint child sets; b_mix holds
+        refused children in the position pattern of the case, at the root AND at the nested level."""
         w = self.w
         width = self.p['width']
-        pos = self.p['p'] % width
+        deny = set(deny_indices(self.p.get('pat', 'single'), width, self.p['p']))
 
         def node(tag, j, level, tainted=False, mixkid=False):
             o = self.mkobj(tag, j, tainted=tainted, depth=1)
             d = pdict(o)
             if level >= 2 and not mixkid:
-                for kind in KINDS:
+                for kind in ALLKINDS:
                     d[aname('b', kind)] = (lambda: [])
                 d['b_mix'] = (lambda: [])
                 return o
             if mixkid:
-                # a child reached through b_mix: expandable, its own children are leaves
-                leaves = [node('%s.leaf%d' % (tag, i), i, 3, tainted) for i in range(2)]
-                for kind in KINDS:
+                # a child reached through b_mix: expandable; its own children (leaves) carry the
+                # same refusal pattern one level down
+                leaves = [node('%s.leaf%d' % (tag, i), i, 3, tainted or i in deny) for i in range(width)]
+                for i in deny:
+                    w.denied_items.add(id(leaves[i]))
+                for kind in ALLKINDS:
                     d[aname('b', kind)] = (lambda: [])
                 d['b_mix'] = (lambda leaves=leaves: list(leaves))
                 return o
-            for kind in KINDS:
-                sec = tainted or self.secret_kind(kind)
+            for kind in ALLKINDS:
+                sec = tainted or self.secret_kind(kind, d['=refuse_alt'])
                 if kind == 'pub':
                     kids = [node('%s%d' % (tag if level else 't', i), i, level + 1, tainted)
                             for i in range(width)]
@@ -487,18 +550,19 @@ class Graph:
                     kids = [node('%s.%s%d' % (tag, aname('b', kind), i), i, 2, sec)
                             for i in range(2)]
                 d[aname('b', kind)] = (lambda kids=kids: list(kids))
-                if kind == 'den' and self.cfg != 'none':
-                    w.denied_attrs.add((id(o), 'b_den'))
-            mix = [node('%s.mix%d' % (tag, i), i, 2, tainted=(i == pos), mixkid=True)
+                if self.cfg != 'none' and (kind == 'den' or (kind == 'alt' and d['=refuse_alt'])):
+                    w.denied_attrs.add((id(o), aname('b', kind)))
+            mix = [node('%s.mix%d' % (tag, i), i, 2, tainted=(i in deny), mixkid=True)
                    for i in range(width)]
-            w.denied_items.add(id(mix[pos]))
+            for i in deny:
+                w.denied_items.add(id(mix[i]))
             d['b_mix'] = (lambda mix=mix: list(mix))
             return o
         return node('root', 0, 0)
 
 
 def canonical_params():
-    return {'n': 4, 'p': 1, 'container': 'pseq', 'na': 0, 'nb': 0, 'width': 3, 'client': 'single'}
+    return {'n': 4, 'p': 1, 'container': 'pseq', 'na': 0, 'nb': 0, 'width': 4, 'client': 'single'}
 
 
 def seeded_params(gseed):
@@ -508,4 +572,4 @@ def seeded_params(gseed):
     n = r.randint(3, 6)
     return {'n': n, 'p': r.randrange(n), 'container': r.choice(['pseq', 'pseq', 'list', 'tuple']),
             'na': r.randrange(0, 5000, 7), 'nb': r.randrange(0, 5000, 11),
-            'width': r.randint(2, 3), 'client': r.choice(['single', 'single', 'tuple'])}
+            'width': r.randint(3, 4), 'client': r.choice(['single', 'single', 'tuple'])}
